@@ -365,7 +365,7 @@ var jtValueFuncs = map[string]bool{
 	modPath + "/internal/server.jsonString":     true,
 	modPath + "/internal/server.jsonTimeFormat": true,
 	modPath + "/internal/server.ConvertToJSON":  true,
-	"strconv.Itoa": true, "strconv.FormatInt": true, "strconv.FormatUint": true, "strconv.FormatBool": true, "strconv.Quote": true,
+	"strconv.Itoa": true, "strconv.FormatInt": true, "strconv.FormatUint": true, "strconv.FormatBool": true,
 	"strconv.FormatFloat": true,
 }
 
@@ -375,7 +375,7 @@ var jtValueAppenders = map[string]bool{
 	modPath + "/internal/server.appendJSONSimplePoint":  true,
 	modPath + "/internal/server.appendJSONSimpleBounds": true,
 	modPath + "/internal/server.appendJSONTimeFormat":   true,
-	"strconv.AppendInt": true, "strconv.AppendUint": true, "strconv.AppendFloat": true, "strconv.AppendBool": true, "strconv.AppendQuote": true,
+	"strconv.AppendInt": true, "strconv.AppendUint": true, "strconv.AppendFloat": true, "strconv.AppendBool": true,
 }
 
 var jtValueMethods = map[string]bool{
